@@ -102,6 +102,8 @@ DRIVER = textwrap.dedent('''
                             if spec is not None:
                                 if spec["name"] in case["args"]:
                                     kwargs[pname] = case["args"][spec["name"]]
+                                elif prm.default is inspect.Parameter.empty:
+                                    kwargs[pname] = None  # an optional parameter without a default in the signature: left as None explicitly
                                 continue
                             if pname == "body" and case.get("body") is not None:
                                 T = strip_optional(hints.get("body", typing.Any))
@@ -216,6 +218,15 @@ def plan_for(doc, parts):
             for v in (0, 1, 2):
                 p = payload.conforming(schemas, sch, v, 0, sname)
                 plan["models"].append([sname, NameSanitizer.sanitize_class_name(sname), p, payload.with_defaults(schemas, sch, p)])
+    if "unions" in parts:
+        for sname, sch in schemas.items():
+            members = isinstance(sch, dict) and (sch.get("oneOf") or sch.get("anyOf"))
+            if not members:
+                continue
+            for i, mem in enumerate(members):
+                for v in (0, 1):
+                    p = payload.conforming(schemas, mem, v)
+                    plan["models"].append([sname, NameSanitizer.sanitize_class_name(sname), p, payload.with_defaults(schemas, mem, p)])
     if "responses" in parts or "requests" in parts:
         for path, item in doc.get("paths", {}).items():
             shared = item.get("parameters", [])
@@ -268,3 +279,35 @@ def run(doc, parts=("models", "responses", "requests"), timeout=180):
         return json.load(open(of))
     finally:
         shutil.rmtree(root, ignore_errors=True)
+
+
+PART_TEXT = {"models": "structure_from_dict / serialize round trip of every object schema's model", "unions": "decode / re-encode of every member payload of every union alias",
+             "responses": "every declared 2xx JSON / empty response through httpx.MockTransport: returned value re-serialises to the body",
+             "requests": "every operation's request through httpx.MockTransport: one request, method, path, query, headers, JSON body"}
+
+
+def bounded(part, tier, seed, ignore=lambda problem: False):
+    """bounded record for one part over the random documents of the corpus (fixed seeds; quick: 8, thorough: 60)"""
+    from props import corpus
+    docs = [(n, d) for n, f, d in corpus.shapes(tier, seed) if f.get("random_doc")]
+    failures, n, ignored = [], 0, 0
+    for name, d in docs:
+        r = run(d, parts=(part,))
+        if r.get("generation_error"):
+            continue  # generation failures are C01 / C07's subject
+        if r.get("error"):
+            failures.append({"id": f"bounded:random-{part}:{name}:harness", "detail": r["error"][-400:], "input": {"document": name}})
+            continue
+        n += r["counts"].get("models" if part == "unions" else part, 0)
+        for pr in r["problems"]:
+            if pr["part"] != ("models" if part == "unions" else part):
+                continue
+            if ignore(pr):
+                ignored += 1
+                continue
+            what = pr.get("schema") or pr.get("op")
+            failures.append({"id": f"bounded:random-{part}:{name}:{pr['kind']}:{what}", "detail": f"{name}: {what} {pr.get('case', '')}: {pr['detail']}"[:600],
+                             "input": {"document": name, "subject": what, "sent": pr.get("sent")}})
+    return {"function": "generated client of each random corpus document, fresh interpreter: " + PART_TEXT[part], "backend": "bounded",
+            "bound": f"{len(docs)} random documents (fixed seeds), conforming payloads in 2-3 variants (typical, falsy / empty, required-only)", "evaluations": n,
+            "distinct_nontrivial": n, "exhaustive": False, "failures": failures, "ignored": ignored}
